@@ -1047,6 +1047,10 @@ impl<'repo> StackTransaction<'repo> {
                 None
             };
 
+            // The temp index no longer holds `ours`: it holds the merged tree on success
+            // and is in an unknown state otherwise.
+            *temp_index_tree_id = maybe_tree_id;
+
             if let Some(tree_id) = maybe_tree_id {
                 tree_id
             } else if !self.options.use_index_and_worktree {
